@@ -22,7 +22,7 @@ var badNames = []string{"1abc", "a/b", "a:b", "a=b", "&ref", "٣x", "a,b", "na\"
 var plainArgs = []string{
 	"x", "yes", "no", "10", "1s", "550", "5.1.1", "tcp:||0.0.0.0:25", "&local", "=", "==", "a=b", "postmaster@example.org",
 	"(.+)@(.+)", "(paren)", "()", ")", "(", "*", "~", "'single'", "a'b", "значение", "値", " nbsp", "-", "--flag", "import", "importer",
-	"}x", "x}", "{x", "x{", "{}", "x#y", "a\\b", "\\n", "a\\", "﻿bom", "é", "{env}", "env:", "{{", "}}",
+	"}x", "x}", "{x", "x{", "{}", "x#y", "a\\b", "\\n", "a\\", "\ufeffbom", "é", "{env}", "env:", "{{", "}}",
 }
 var quotedBodies = []string{
 	"", " ", "two words", "a  b", "tab\tin", "line1\nline2", "cr\rin", "crlf\r\nin", `esc \" quote`, `back\\slash`, `b\\\" q`, "# not a comment", "{", "}", "{ }",
@@ -47,6 +47,13 @@ type gen struct {
 	budget   int
 
 	forceMacro, forceSnip string
+
+	// hostile: error-inducing constructs allowed (declarations inside blocks,
+	// undefined imports, multi-valued macros inside strings, brace tokens as
+	// arguments, ill-formed names ...). Non-hostile inputs are meant to parse,
+	// so that the tree clauses and the round trip are exercised.
+	hostile bool
+	multi   map[string]bool // macro names that (may) have several values
 }
 
 func (g *gen) f(s string) { g.feat[s] = true }
@@ -67,6 +74,24 @@ func (g *gen) macroRef() string {
 		pool = macroNames
 	}
 	return "$(" + prng.Pick(g.p, pool) + ")"
+}
+
+// singleRef returns a reference that is safe inside a string in non-hostile mode.
+func (g *gen) singleRef() string {
+	if g.hostile {
+		return g.macroRef()
+	}
+	for try := 0; try < 6; try++ {
+		pool := g.macros
+		if len(pool) == 0 || g.p.Chance(1, 5) {
+			pool = macroNames
+		}
+		n := prng.Pick(g.p, pool)
+		if !g.multi[n] {
+			return "$(" + n + ")"
+		}
+	}
+	return "$(never_defined)"
 }
 
 func (g *gen) envRef() string {
@@ -96,6 +121,9 @@ func (g *gen) arg() string {
 		if body == "$" && g.clean {
 			body = "S"
 		}
+		if !g.hostile && (body == "{" || body == "}" || body == `\`) {
+			body = "{ }"
+		}
 		return g.quoted(body)
 	case 2:
 		g.f("macro-ref")
@@ -104,9 +132,9 @@ func (g *gen) arg() string {
 		g.f("macro-in-string")
 		pre := prng.Pick(g.p, []string{"", "pre", "a.", "/", "x=", "@"})
 		post := prng.Pick(g.p, []string{"", "post", ".b", "/", ")", "("})
-		s := pre + g.macroRef() + post
+		s := pre + g.singleRef() + post
 		if g.p.Chance(1, 4) {
-			s += g.macroRef()
+			s += g.singleRef()
 			g.f("macro-twice-in-string")
 		}
 		if g.p.Chance(1, 3) {
@@ -142,7 +170,7 @@ func (g *gen) arg() string {
 }
 
 func (g *gen) name() string {
-	if g.wantBad && g.p.Chance(1, 25) {
+	if g.hostile && g.wantBad && g.p.Chance(1, 25) {
 		g.f("bad-name")
 		return prng.Pick(g.p, badNames)
 	}
@@ -183,12 +211,16 @@ func (g *gen) importLine(d int) {
 	g.f("import")
 	g.indent(d)
 	pool := g.snips
-	if len(pool) == 0 || g.p.Chance(1, 8) {
+	if len(pool) == 0 || (g.hostile && g.p.Chance(1, 8)) {
 		pool = snippetNames
 		g.f("import-maybe-undefined")
 	}
 	g.b.WriteString("import ")
-	switch g.p.Intn(12) {
+	form := g.p.Intn(12)
+	if !g.hostile && form < 2 {
+		form = 2
+	}
+	switch form {
 	case 0:
 		g.b.WriteString(g.macroRef())
 		g.f("import-via-macro")
@@ -204,7 +236,7 @@ func (g *gen) importLine(d int) {
 
 func (g *gen) node(d int, inSnippet bool) {
 	g.nodes++
-	if g.p.Chance(1, 9) && (len(g.snips) > 0 || g.p.Chance(1, 4)) {
+	if g.p.Chance(1, 9) && (len(g.snips) > 0 || (g.hostile && g.p.Chance(1, 4))) {
 		g.importLine(d)
 		return
 	}
@@ -266,7 +298,11 @@ func (g *gen) macroDecl() {
 	}
 	g.macros = append(g.macros, name)
 	g.b.WriteString("$(" + name + ") =")
-	switch g.p.Intn(10) {
+	form := g.p.Intn(10)
+	if !g.hostile && form == 2 {
+		form = 3
+	}
+	switch form {
 	case 0:
 		g.f("macro-decl-only-undefined-ref")
 		g.b.WriteString(" $(never_defined)")
@@ -277,9 +313,16 @@ func (g *gen) macroDecl() {
 		g.f("macro-decl-missing-value")
 	default:
 		n := g.p.Weighted([]int{0, 60, 25, 10, 5})
+		if !g.hostile && !g.multi[name] {
+			n = 1
+		}
 		for i := 0; i < n; i++ {
 			g.b.WriteByte(' ')
-			g.b.WriteString(g.arg())
+			a := g.arg()
+			if !g.hostile && !g.multi[name] && strings.HasPrefix(a, "$(") && strings.HasSuffix(a, ")") {
+				a = "v" // a whole-token reference could expand to several values
+			}
+			g.b.WriteString(a)
 		}
 	}
 	g.eol()
@@ -293,7 +336,7 @@ func (g *gen) snippetDecl() {
 	}
 	g.snips = append(g.snips, name)
 	g.b.WriteString("(" + name + ")")
-	if g.p.Chance(1, 30) {
+	if g.hostile && g.p.Chance(1, 30) {
 		g.b.WriteString(" arg")
 	}
 	g.b.WriteString(" {")
@@ -307,7 +350,11 @@ func (g *gen) snippetDecl() {
 }
 
 func (g *gen) item(d int, inSnippet bool) {
-	switch g.p.Weighted([]int{80, 6, 6, 1, 1}) {
+	w := []int{80, 6, 6, 1, 1}
+	if !g.hostile {
+		w = []int{80, 6, 6, 0, 0}
+	}
+	switch g.p.Weighted(w) {
 	case 0:
 		g.node(d, inSnippet)
 	case 1:
@@ -329,16 +376,20 @@ func (g *gen) item(d int, inSnippet bool) {
 
 // genConfig builds one configuration text.
 func genConfig(p *prng.R) (text string, feats []string, clean bool) {
-	g := &gen{p: p, feat: map[string]bool{}, nl: "\n"}
+	g := &gen{p: p, feat: map[string]bool{}, nl: "\n", multi: map[string]bool{}}
 	g.clean = !p.Chance(1, 5)
-	g.wantBad = p.Chance(1, 4)
+	g.hostile = p.Chance(35, 100)
+	if g.hostile {
+		g.f("hostile")
+	}
+	g.wantBad = p.Chance(1, 2)
 	g.budget = p.Range(4, 40)
 	if p.Chance(1, 10) {
 		g.nl = "\r\n"
 		g.f("crlf")
 	}
 	if p.Chance(1, 30) {
-		g.b.WriteString("﻿")
+		g.b.WriteString("\ufeff")
 		g.f("bom")
 	}
 	// names that will be declared somewhere (so that references before the
@@ -347,6 +398,11 @@ func genConfig(p *prng.R) (text string, feats []string, clean bool) {
 	var pendM, pendS []string
 	for i := 0; i < nm; i++ {
 		pendM = append(pendM, prng.Pick(p, macroNames))
+	}
+	for _, n := range macroNames {
+		// arity class of every macro name in this input, fixed up front so that
+		// forward references inside strings can be kept single-valued
+		g.multi[n] = p.Chance(1, 4)
 	}
 	for i := 0; i < ns; i++ {
 		pendS = append(pendS, prng.Pick(p, snippetNames))
@@ -397,7 +453,7 @@ func genConfig(p *prng.R) (text string, feats []string, clean bool) {
 var dict = []string{
 	"{", "}", " {", "} ", "{\n", "\n}", "\"", "\\", "\\\n", "\\\r\n", "\n", "\r", "\r\n", "#", " #", "$(", ")", "(", "$", " = ", "=",
 	"import ", "import s0\n", "import $(m0)\n", "$(m0)", "$(m0) = ", "$(m0) = $(m1)\n", "(s0) {\n", "(s0)", "{env:C20_A}", "{env:", "}", "{env:C20_CB}",
-	"﻿", "\x00", "\xff", "\xc3", " ", " ", "\u0085", " ", "\t", "\v", "\f", "a", "0", "٣", "\\\"", "\"\"", "\" \"", "{ }", "{}",
+	"\ufeff", "\x00", "\xff", "\xc3", " ", " ", "\u0085", " ", "\t", "\v", "\f", "a", "0", "٣", "\\\"", "\"\"", "\" \"", "{ }", "{}",
 }
 
 func mutate(p *prng.R, in []byte, rounds int) []byte {
